@@ -99,6 +99,9 @@ def variants(sh, vi):
                                lemma=['l%d' % i for i in range(n)], morph=['m' * (1 + 7 * (i % 3)) for i in range(n)],
                                edge=[edges[i % len(edges)] for i in range(n)])
     yield 'plain', model.MT(12, toks(['w%d' % (i + 1) for i in range(n)]), root), ()
+    xroot = model.decorate(sh, lambda p, s: ['N&', 'N<x>', 'N"q"', "N'a"][(sum(p) + len(p)) % 4] + ''.join(map(str, p)),
+                           lambda p, s: ['H&D', 'N<K', '--', 'S"B'][(sum(p) + len(p)) % 4])
+    yield 'xml-labels', model.MT(5, toks(['w%d' % (i + 1) for i in range(n)]), xroot), ()
     for rot in range(3):
         ws = [SPECIAL[(vi * 3 + rot * 5 + i * 4) % len(SPECIAL)] for i in range(n)]
         yield 'special%d' % rot, model.MT(7, toks(ws), root), ()
